@@ -10,7 +10,7 @@ INCLUDES  := -Ishim -I$(REPO) -I$(REPO)/bluetoe/sm/include -I$(REPO)/bluetoe/uti
              -I$(REPO)/bluetoe/bindings/nordic/include
 LDFLAGS   := $(SAN) -pthread
 
-HARNESSES := wl_sim nq_sim ring_sim irq_sim pdu_sim sdu_sim gatt_sim stack_sim sm_sim l2cap_sim csc_sim bl_sim
+HARNESSES := wl_sim nq_sim ring_sim irq_sim pdu_sim sdu_sim gatt_sim stack_sim sm_sim l2cap_sim csc_sim bl_sim nrf_sim
 
 REPO_OBJS := $(BUILD)/repo/address.o $(BUILD)/repo/channel_map.o $(BUILD)/repo/delta_time.o $(BUILD)/repo/connection_details.o
 
@@ -79,6 +79,11 @@ $(BUILD)/sm_sim.o: harness/sm_sim.cpp sim/sim.hpp shim/nrf.h
 
 $(BUILD)/sm_sim: $(BUILD)/sm_sim.o $(BUILD)/sim.o $(BUILD)/repo/address.o $(BUILD)/repo/security_tool_box.o $(BUILD)/repo/uECC.o
 	$(CXX) $^ $(LDFLAGS) -no-pie -lcrypto -o $@
+
+# ---- nrf_sim: the real nRF52 radio front end (nrf52.hpp) on a simulated Hardware; no register level code is compiled
+$(BUILD)/nrf_sim.o: harness/nrf_sim.cpp harness/nrf_front.hpp sim/sim.hpp shim/nrf.h
+	@mkdir -p $(dir $@)
+	$(CXX) $(CXXFLAGS) $(SM_INCLUDES) -MMD -c $< -o $@
 
 clean:
 	rm -rf $(BUILD)
